@@ -179,19 +179,19 @@ def _elem_ref(it, r, v, i):
 
 
 class WindowsIt(S.It):
-    def __init__(self, refs, n, step):
-        self.refs, self.n, self.step, self.pos = refs, n, step, 0
+    def __init__(self, refs, n, step, partial=False):
+        self.refs, self.n, self.step, self.pos, self.partial = refs, n, step, 0, partial
 
     def next(self, it, depth):
-        if self.pos + self.n > len(self.refs):
-            return None
+        if self.pos + self.n > len(self.refs) and not (self.partial and self.pos < len(self.refs)):
+            return None           # (`chunks` ends with the shorter remainder, `chunks_exact` / `windows` do not)
         cell = A.Frame(None)
         cell.locals[0] = ("array", self.refs[self.pos:self.pos + self.n], "window")
         self.pos += self.step
         return ("ref", cell, 0, [])
 
 
-def m_windows(chunks):
+def m_windows(chunks, partial=False):
     def f(it, args, callee, depth):
         r = args[0]
         while isinstance(r, tuple) and r[0] == "ref" and isinstance(it.load_ref(r), tuple) and it.load_ref(r)[0] == "ref":
@@ -203,7 +203,7 @@ def m_windows(chunks):
         if n == 0:
             raise A.Panic("window/chunk size 0")
         refs = [_elem_ref(it, r, v, i) for i in range(len(v[1]))]
-        return ("iter", WindowsIt(refs, n, n if chunks else 1))
+        return ("iter", WindowsIt(refs, n, n if chunks else 1, partial))
     return f
 
 
@@ -490,7 +490,7 @@ MODELS = {
     "$slice::<impl [T]>::split_first": m_slice_first_last("split_first"),
     "$slice::<impl [T]>::split_last": m_slice_first_last("split_last"),
     "$slice::<impl [T]>::windows": m_windows(False),
-    "$slice::<impl [T]>::chunks": m_windows(True),
+    "$slice::<impl [T]>::chunks": m_windows(True, partial=True),
     "$slice::<impl [T]>::chunks_exact": m_windows(True),
     "Iterator::skip": m_skip,
     "Iterator::take_while": m_take_while,
